@@ -10,6 +10,6 @@
 //@@ include opspec.rs
 //@@ include opspec_lemmas.rs
 //@@ include cleanup.rs
-//@@ props ^cleanup_diff_ops$|^shift_diff_ops_up$|^shift_diff_ops_down$ : C02 C10 C11
+//@@ props ^cleanup_diff_ops$|^shift_diff_ops_up$|^shift_diff_ops_down$ : C02 C10 C11 C09
 
 fn main() {}
